@@ -57,6 +57,18 @@ def run_case(case):
 		exp, act = spec_enc(spec_rc(w)), _call(ck.kmer_to_index_rc, w)
 	elif kind == 'py_encrc':
 		exp, act = spec_enc(spec_rc(w)), _call(gk.kmer_to_index_rc, w)
+	elif kind == 'str_kmer':
+		# text input: valid k-mers encode like their bytes; any character outside ACGTacgt (incl. non-ASCII ones) is REJECTED, never dropped
+		text = case['text']
+		valid = all(ch in 'ACGTacgt' for ch in text) and len(text) <= 32
+		exp = [spec_enc(text.encode()), spec_enc(spec_rc(text.encode()))] if valid else 'rejected'
+		res = []
+		for f in (gk.kmer_to_index, gk.kmer_to_index_rc):
+			try:
+				res.append(f(text))
+			except (ValueError, UnicodeError, OverflowError):
+				res.append('rejected')
+		act = res if valid else ('rejected' if all(r == 'rejected' for r in res) else res)
 	elif kind == 'rc':
 		import gambit.seq as gs
 		exp, act = list(spec_rc(w)), list(_call(ck.revcomp, w))
@@ -135,6 +147,16 @@ def _cases(tier, seed):
 				yield {'kind': 'roundtrip', 'index': idx, 'k': k}
 	for idx in (2 ** 64 - 1, 2 ** 64, -1):
 		yield {'kind': 'dec', 'index': idx, 'k': 32}
+	# text k-mers: valid ones, and ones with a foreign character at every position (ASCII garbage, Latin-1, BOM, nbsp, CJK, emoji)
+	for base in ('ACGT', 'acgtACGT', 'T' * 32, 'A' * 16 + 'C' * 16, 'G'):
+		yield {'kind': 'str_kmer', 'text': base}
+		for bad in ('N', ' ', '-', '\xe9', '\xa0', '\ufeff', '\u4e2d', '\U0001f9ec', '\x00', '\x7f', '\x80'):
+			for pos in sorted({0, len(base) // 2, len(base)}):
+				yield {'kind': 'str_kmer', 'text': base[:pos] + bad + base[pos:]}
+				if len(base) > 1:
+					yield {'kind': 'str_kmer', 'text': base[:pos] + bad + base[pos + 1:]}
+	yield {'kind': 'str_kmer', 'text': 'A' * 16 + '\xa0' + 'A' * 16}
+	yield {'kind': 'str_kmer', 'text': 'A' * 33}
 	# indices that are not exactly representable as a double, for every k that can hold them
 	for k in range(27, 33):
 		for _ in range(6):
